@@ -195,7 +195,7 @@ PROPS["C03"] = {
                           "C03_kept_literals_distinct", "C03_keepall_keeps", "C03_traversal_nodup", "C03_traversal_in_range",
                           "C03_sortedBlocks_perm", "C03_register_names_injective", "C03_block_names_injective"],
     "level_text": "Kernel-checked on the Lean canonicaliser: canonical names are injective (the traversal of a well-formed CFG lists no block twice, every block is rendered exactly once and no two blocks share a label; the register map never gives one name to two values); guards: operands are reordered only for + * == != & | ^ and + only on numbers; a branch swap is recorded only for integer|string operands whose comparison feeds nothing but that If (never floats); only len/cap/complex/real/imag/min/max are hoisted and len/cap never on a map or channel; recurrences of different loops, different external callees and different kept literals print differently; KeepAllLiteralsPolicy abstracts no string and no int64. Behavioural tie and the search for collisions: every generated function P is edited into Q by the behaviour-changing catalogue (operator, operand, branch, callee, index, loop variable/step/compare, small literal, deliberately invalid commute/flip/hoist, exchanged nested loop variables, callee of another package, exchanged select cases), BOTH are executed natively on an input table, and whenever the outputs differ the fingerprints must differ under KeepAllLiterals and under the default policy.",
-    "level_note": "PARTIAL: global injectivity of the canonical text (no two behaviourally different functions share it) is not proved - it needs a semantics of Go SSA; the theorems pin each normalisation's guard and the native-execution oracle searches for collisions. Known finding: select-case sorting merges functions that differ only in which case body belongs to which channel.",
+    "level_note": "PARTIAL: global injectivity of the canonical text (no two behaviourally different functions share it) is not proved - it needs a semantics of Go SSA; the theorems pin each normalisation's guard and the native-execution oracle searches for collisions.",
     "partial": "no SSA semantics in Lean: collisions are searched by native execution, guards are proved",
     "trusted_base": ["the Go compiler and runtime (native execution of P and Q)", "go/ssa"],
 }
@@ -209,7 +209,7 @@ PROPS["C04"] = {
                           "C04_equivalent_same_operator", "C04_equivalent_operands", "C04_equivalent_operands_swapped",
                           "C04_swap_guard", "C04_mapped_operand_respected"],
     "level_text": "Kernel-checked decision logic of CompareFunctions: the verdict is `preserved` iff the fingerprints are equal, or neither side is oversized and the zipper left nothing added and nothing removed; identical copies are preserved; an oversized function is never waved through by the zipper; any unmatched instruction means modified; zipper-preserved pairs have equally many instructions (bookkeeping theorems of C09). Behavioural tie: for every generated (old,new) pair whose native outputs differ on some input, and for the specials (exchanged if/else bodies, oversized edit, callee swap, select, nested loop variables), the real cli.CompareFunctions / ComputeDiff status must not be preserved; every function compared with a separately compiled copy of itself must be preserved with nothing added or removed.",
-    "level_note": "PARTIAL: that fingerprint equality and an empty zipper difference imply equal behaviour is C03's open half; here it is searched by native execution. The zipper's equivalence test is modelled and tied decision by decision (trace hook); theorems say what a positive decision guarantees (same operator fields; every operand already mapped to its partner or a non-linkable value with the same canonical text; swaps only for commutative numeric ops and ==/!=). Known finding shared with C03 (select cases).",
+    "level_note": "PARTIAL: that fingerprint equality and an empty zipper difference imply equal behaviour is C03's open half; here it is searched by native execution. The zipper's equivalence test is modelled and tied decision by decision (trace hook); theorems say what a positive decision guarantees (same operator fields; every operand already mapped to its partner or a non-linkable value with the same canonical text; swaps only for commutative numeric ops and ==/!=).",
     "partial": "soundness of the two routes to `preserved` rests on C03 / the zipper's equivalence relation, searched by native execution",
     "trusted_base": ["the Go compiler and runtime (native execution)", "diff.Zipper's areEquivalent (exercised, not modelled)"],
 }
